@@ -110,6 +110,27 @@ def _is_boolean_expr(e):
     return False
 
 
+def _pure_boolean(e):
+    """Comparison / and / or / not over names, attributes and constants."""
+    if isinstance(e, ast.BoolOp):
+        return all(_pure_boolean(v) for v in e.values)
+    if isinstance(e, ast.UnaryOp) and isinstance(e.op, ast.Not):
+        return _pure_boolean(e.operand)
+    if isinstance(e, ast.Compare):
+        return all(_pure_operand(x) for x in [e.left] + e.comparators)
+    return False
+
+
+def _pure_operand(e):
+    if isinstance(e, (ast.Name, ast.Constant)):
+        return True
+    if isinstance(e, ast.Attribute):
+        return _pure_operand(e.value)
+    if isinstance(e, (ast.Tuple, ast.List)):
+        return all(_pure_operand(x) for x in e.elts)
+    return False
+
+
 def _is_const(e, val):
     return isinstance(e, ast.Constant) and e.value is val
 
@@ -221,13 +242,16 @@ class Canon:
             self.changed = False
             self.usage = _Usage(fn)
             self.aliases(fn)
-            fn.body = self.block(fn.body)
+            fn.body = self.block(fn.body) or [ast.Pass()]
             if not self.changed:
                 break
         ast.fix_missing_locations(fn)
 
     def aliases(self, fn):
         u = self.usage
+        a_ = fn.args
+        self._params = {x.arg for x in a_.posonlyargs + a_.args +
+                        a_.kwonlyargs}
         attr_stores = set()
         for n in ast.walk(fn):
             if isinstance(n, ast.Attribute) and isinstance(
@@ -236,7 +260,7 @@ class Canon:
             if isinstance(n, ast.Call) and isinstance(n.func, ast.Name) and \
                     n.func.id in ("setattr", "delattr"):
                 attr_stores.add("*")
-        for i, st in enumerate(list(fn.body)):
+        for blk, i, st in self._all_blocks(fn):
             if not (isinstance(st, ast.Assign) and len(st.targets) == 1
                     and isinstance(st.targets[0], ast.Name)):
                 continue
@@ -249,20 +273,34 @@ class Canon:
             while isinstance(chain, ast.Attribute):
                 attrs.append(chain.attr)
                 chain = chain.value
-            if not attrs or not isinstance(chain, ast.Name):
+            roots = None
+            if attrs and isinstance(chain, ast.Name):
+                roots = {chain.id}
+            elif _pure_boolean(st.value):
+                roots = {n.id for n in ast.walk(st.value)
+                         if isinstance(n, ast.Name)}
+                attrs = [n.attr for n in ast.walk(st.value)
+                         if isinstance(n, ast.Attribute)]
+            if not roots:
                 continue
-            root = chain.id
-            if u.stores.get(root, 0) != 0 or "*" in attr_stores or \
-                    any(a in attr_stores for a in attrs):
+            if any(u.stores.get(r, 0) != 0 or r in u.banned and
+                   r not in self._params for r in roots) or \
+                    "*" in attr_stores or any(a in attr_stores
+                                              for a in attrs):
                 continue
             # no call on / with the root before the last read of v
-            rest = fn.body[i + 1:]
+            rest = blk[i + 1:]
             last = None
             for n in ast.walk(ast.Module(body=rest, type_ignores=[])):
                 if isinstance(n, ast.Name) and n.id == v:
                     pos = (n.lineno, n.col_offset)
                     last = pos if last is None or pos > last else last
             if last is None:
+                continue
+            inside = sum(1 for n in ast.walk(ast.Module(
+                body=rest, type_ignores=[])) if isinstance(n, ast.Name)
+                and n.id == v and isinstance(n.ctx, ast.Load))
+            if inside != u.loads.get(v, 0):
                 continue
             clean = True
             for n in ast.walk(ast.Module(body=rest, type_ignores=[])):
@@ -275,9 +313,9 @@ class Canon:
                     names = {x.id for a in list(n.args) + [
                         k.value for k in n.keywords] for x in ast.walk(a)
                         if isinstance(x, ast.Name)}
-                    if (isinstance(recv, ast.Name) and recv.id == root
+                    if (isinstance(recv, ast.Name) and recv.id in roots
                             and isinstance(n.func, ast.Attribute)
-                            and n.func.value is recv) or root in names:
+                            and n.func.value is recv) or roots & names:
                         clean = False
                         break
             if not clean:
@@ -285,11 +323,34 @@ class Canon:
             for k, other in enumerate(rest):
                 r = _ReplaceAll(v, st.value)
                 rest[k] = r.visit(other)
-            fn.body[i + 1:] = rest
-            fn.body.remove(st)
+            blk[i + 1:] = rest
+            blk.remove(st)
             self.did("T9.alias")
             self.usage = _Usage(fn)
             return
+
+    @staticmethod
+    def _all_blocks(fn):
+        """(block list, index, statement) of every statement of fn that is
+        not inside a loop (a loop body may run again after a later store)."""
+        out = []
+
+        def visit(blk):
+            for i, st in enumerate(list(blk)):
+                out.append((blk, i, st))
+                if isinstance(st, (ast.For, ast.While, ast.FunctionDef,
+                                   ast.AsyncFunctionDef, ast.ClassDef)):
+                    continue
+                for fld in ("body", "orelse", "finalbody"):
+                    sub = getattr(st, fld, None)
+                    if isinstance(sub, list) and sub and isinstance(
+                            sub[0], ast.stmt):
+                        visit(sub)
+                if isinstance(st, ast.Try):
+                    for h in st.handlers:
+                        visit(h.body)
+        visit(fn.body)
+        return out
 
     def did(self, what):
         self.changed = True
@@ -316,6 +377,22 @@ class Canon:
             if isinstance(s, ast.Try):
                 for h in s.handlers:
                     h.body = self.block(h.body)
+        # empty branches left behind by dropped statements
+        cleaned = []
+        for s in stmts:
+            if isinstance(s, ast.If):
+                s.body = [x for x in s.body if not isinstance(x, ast.Pass)]
+                s.orelse = [x for x in s.orelse
+                            if not isinstance(x, ast.Pass)]
+                if not s.body and not s.orelse:
+                    self.did("T6.empty-if")
+                    continue
+                if not s.body:
+                    s.test = negate(s.test)
+                    s.body, s.orelse = s.orelse, []
+                    self.did("T6.empty-branch")
+            cleaned.append(s)
+        stmts = cleaned
         out = []
         i = 0
         while i < len(stmts):
